@@ -154,10 +154,10 @@ def main(tier, seed, replay=None):
     for k in sorted(md_samples):
         print("model_disagreement x%d in %s, e.g. `%s` spec says %s; clang: %s"
               % (len(md_samples[k]), k, md_samples[k][0]["expr"], md_samples[k][0]["spec"], md_samples[k][0]["clang"][:160]))
-    # spec-only platforms: differences are evidence, not violations; note whether the same expression also fails on a built-in platform
+    # spec-only platforms: differences are evidence, not violations; note whether the same expression also fails on a platform with a second witness
     builtin_bad = {(n["lang"], n["expr"]) for sh in shards if sh["plat"] not in SPEC_ONLY for n in sh["notable"] if n["verdict"] == "violation"}
     spec_only = [{"platform": n["platform"], "lang": n["lang"], "expr": n["expr"], "expected": n["expected"], "cppcheck": n["got"],
-                  "also_fails_on_builtin": (n["lang"], n["expr"]) in builtin_bad}
+                  "also_fails_on_witnessed_platform": (n["lang"], n["expr"]) in builtin_bad}
                  for sh in shards for n in sh["notable"] if n["verdict"] == "spec_only_difference"]
     with_value = tot.get("cases", 0) - tot.get("novalue", 0)
     cov = {
